@@ -44,7 +44,8 @@ def cases(draw):
                 continue
             m = draw(st.integers(0, 10 ** 6))
             val = [draw(dt.prefactor()), draw(dt.energy(-1, 3))]
-            lst.append({"cls": n, "member": m, "dup": (draw(st.integers(1, 10 ** 6)) if mode == "dup" else None), "val": val})
+            lst.append({"cls": n, "member": m, "dup": (draw(st.integers(1, 10 ** 6)) if mode == "dup" else None), "val": val,
+                        "dupn": (draw(st.sampled_from([1, 1, 2, 3])) if mode == "dup" else 0)})   # how many further members of the class are also given
         chosen[t] = lst
     bogus = draw(st.lists(st.sampled_from(["v:+9.999,+9.999,+9.999", "nonsense", "omega0:v:+0.123,+0.000,+0.000^v:+7.000,+0.000,+0.000", "s:+0.5"]), max_size=3, unique=True))
     return {"kind": "vacancy", "setup": setup, "chosen": chosen, "bogus": bogus}
@@ -160,7 +161,7 @@ def check(case):
         return {"nontrivial": len(sl) >= 2 or len(jn) >= 2, "classes": cs.describe(crys) + ["interstitial"],
                 "sample": {"kind": "interstitial", "crystal": case["recipe"]["name"], "basis": case["recipe"]["basis"], "ntags": nt, "example": diff.tags["transitions"][0][0]}}
     crys, sl, jn, calc = vs.calculator(case["setup"])
-    G = Geometry(crys, 0)
+    G = Geometry(crys, case["setup"]["chem"])
     nt = check_classes(G, calc.tags, crys.dim)
     for tag, n in calc.tagdict.items():
         require(tag in calc.tags[calc.tagdicttype[tag]][n], "tagdict points to the wrong class for %r" % tag)
@@ -177,10 +178,13 @@ def check(case):
             user[tag] = tuple(c["val"])
             supplied[t][c["cls"]] = tuple(c["val"])
             if c["dup"] is not None and len(members) > 1:
-                k2 = (c["member"] % len(members) + 1 + c["dup"] % (len(members) - 1)) % len(members)
-                tag2 = members[k2]
-                user[tag2] = tuple(c["val"])
-                dups.append(sorted([tag, tag2]))
+                k1 = c["member"] % len(members)
+                others = [k for k in range(len(members)) if k != k1]
+                start = c["dup"] % len(others)
+                extra = [members[others[(start + q) % len(others)]] for q in range(min(c.get("dupn", 1) or 1, len(others)))]
+                for tag2 in extra:
+                    user[tag2] = tuple(c["val"])
+                dups.append(sorted([tag] + extra))
     for b in case["bogus"]:
         if b not in calc.tagdict:
             user[b] = (2.0, 0.5)
@@ -223,7 +227,7 @@ def check(case):
     require(sorted(sorted(x) for x in duplicate) == sorted(dups), lambda: "verbose report of duplicates is wrong: %s vs expected %s" % (duplicate, dups))
     require(sorted(bad) == bogus, lambda: "verbose report of unrecognised tags is wrong: %s vs expected %s" % (bad, bogus))
     ntv = bool(dups) and bool(bogus) and bool(want_missing)
-    return {"nontrivial": ntv, "classes": cs.describe(crys) + vs.describe(calc) + ["vacancy"] + (["dups"] if dups else []) + (["bogus"] if bogus else []),
+    return {"nontrivial": ntv, "classes": cs.describe(crys) + vs.describe(calc) + ["vacancy"] + (["dups"] if dups else []) + (["class_given_3_or_more_times"] if any(len(x) >= 3 for x in dups) else []) + (["bogus"] if bogus else []),
             "sample": {"kind": "vacancy", "crystal": case["setup"]["recipe"]["name"], "basis": case["setup"]["recipe"]["basis"], "Nthermo": case["setup"]["Nthermo"], "ntags": nt,
                        "user_tags": dict(list(user.items())[:5]), "duplicates": dups[:2], "bogus": bogus}}
 
